@@ -4,9 +4,10 @@ import Driver.Link
 import Driver.Json
 import Driver.Walk
 import Driver.Store
+import Driver.Transform
 open Ipld.Driver
 
-def handlers : List (List String → Option String) := [cborHandler, asmHandler, linkHandler, jsonHandler, walkHandler, storeHandler]
+def handlers : List (List String → Option String) := [cborHandler, asmHandler, linkHandler, jsonHandler, walkHandler, storeHandler, xformHandler]
 
 def dispatch (line : String) : String :=
   let toks := (line.trimAscii.toString.splitOn " ").filter (· ≠ "")
